@@ -39,3 +39,19 @@ func init() {
 		r.RequireMin("CODEC-TYPESWITCH", 5)
 	})
 }
+
+func init() {
+	register("C20", []string{"./backend/groth16/...", "./backend/plonk/...", "./frontend/cs/r1cs/..."}, func(p *Prog, r *Report) {
+		r.Engines = []string{"randflow(RAND-SOURCE,RAND-FLOW,RAND-MASK)", "flow(FLOW-REF on the Randomize hint)", "sibling"}
+		r.Explanation = "Static provenance analysis of blinding (flow-insensitive backward slices over SSA, closures included). Decided: Groth16 — Prove draws two distinct random scalars with checked errors, proof.Ar and proof.Bs each depend on one of them (different ones) and proof.Krs on both; PLONK — getRandomPolynomial draws every coefficient, four random polynomials are stored as the blinding polynomials, the commitments of L, R, O and Z are computed together with their blinding polynomial, the BSB22 commitment polynomial receives two error-checked random entries, and under the statistical zero-knowledge option the two quotient-shard randomisers are written in place by SetRandom; r1cs Commit — every successful call creates its own Randomize mask wire (must-pass), and the mask reaches the committed set and a constraint (flow). Sibling agreement across the 7 curves. NOT decided: quality or independence of the randomness, that a blinded value is not later overwritten along some path (flow-insensitive), equality of proof elements across runs."
+		r.RuleText = "one obligation per blinded element / randomness site per curve; nontrivial = a SetRandom call was found in the slice"
+		r.Assumptions = []string{"(*fr.Element).SetRandom fills the receiver from crypto/rand (gnark-crypto)", "gnark-crypto value methods: receiver <- receiver U arguments"}
+		RunRandGroth16(p, r)
+		RunRandPlonk(p, r)
+		RunRandCommitMask(p, r)
+		RunSibling(p, r, "C20")
+		r.RequireMin("RAND-FLOW", 7*4+14)
+		r.RequireMin("RAND-SOURCE", 7*5)
+		r.RequireMin("RAND-MASK", 1)
+	})
+}
